@@ -8,17 +8,17 @@ import (
 
 // Stats is what one worker measured; the driver merges them.
 type Stats struct {
-	Evals        int64            `json:"evals"`
-	Steps        int64            `json:"steps"`
-	Finger       map[uint64]bool  `json:"-"`
-	FingerList   []uint64         `json:"finger"`
-	Faults       map[string]int64 `json:"faults"`
-	Probes       map[string]int64 `json:"probes"`
-	Inconclusive int64            `json:"inconclusive"`
+	Evals        int64             `json:"evals"`
+	Steps        int64             `json:"steps"`
+	Finger       map[uint64]bool   `json:"-"`
+	FingerList   []uint64          `json:"finger"`
+	Faults       map[string]int64  `json:"faults"`
+	Probes       map[string]int64  `json:"probes"`
+	Inconclusive int64             `json:"inconclusive"`
 	Samples      []json.RawMessage `json:"samples"`
-	Known        map[string]int64 `json:"known"`
-	Runs         int64            `json:"runs"`
-	Exhaustive   bool             `json:"exhaustive"`
+	Known        map[string]int64  `json:"known"`
+	Runs         int64             `json:"runs"`
+	Exhaustive   bool              `json:"exhaustive"`
 	// Report lets an enumerating engine hand over several violations of one run; it returns true to stop.
 	Report func(t *Trace, v *Violation) bool `json:"-"`
 }
@@ -27,8 +27,8 @@ func NewStats() *Stats {
 	return &Stats{Finger: map[uint64]bool{}, Faults: map[string]int64{}, Probes: map[string]int64{}, Known: map[string]int64{}}
 }
 
-func (s *Stats) Fault(kind string, n int64) { s.Faults[kind] += n }
-func (s *Stats) Probe(name string)          { s.Probes[name]++ }
+func (s *Stats) Fault(kind string, n int64)  { s.Faults[kind] += n }
+func (s *Stats) Probe(name string)           { s.Probes[name]++ }
 func (s *Stats) ProbeN(name string, n int64) { s.Probes[name] += n }
 
 // Mark records the fingerprint of a distinct non-trivial execution.
